@@ -215,7 +215,8 @@ def in_memory(ctx, specs, tmpdir):
         for i, s in enumerate(static):
             fn = getattr(mod, "f_target_{}".format(i))
             base = {"op": OP, "kind": "function", "via": "memory", "fn_kind": s.kind, "doc_style": s.style, "doc_mode": s.doc_mode,
-                    "doc_order": s.order, "has_doc": s.has_doc, "partial_pos_defaults": _partial(s)}
+                    "doc_order": s.order, "has_doc": s.has_doc, "partial_pos_defaults": _partial(s),
+                    "some_doc_states_default": any(p.get("doc_states_default") for p in s.params)}
             replay = {"src": s.src, "via": "memory"}
             ctx.case(spec_sig(s) + ("memory",), nontrivial=bool(s.params))
             try:
